@@ -17,6 +17,7 @@ fn main() -> ExitCode {
     let only = args.get(5).map(String::as_str);
     let run: Run = match prop {
         "C02" => rosu_verif::c02::run(tier, seed, only),
+        "C03" => rosu_verif::c03::run(tier, seed, only),
         "C04" => rosu_verif::c04::run(tier, seed, only),
         "C07" => rosu_verif::c07::run(tier, seed, only),
         "C14" => rosu_verif::c14::run(tier, seed, only),
